@@ -137,3 +137,8 @@ Theorem C07_source_has_the_modelled_shape :
   go_other_methods_touching_state = 0%nat.
 Proof. exact source_shape. Qed.
 Print Assumptions C07_source_has_the_modelled_shape.
+
+(* the shared state of the source is exactly the modelled one: a lock, the configuration pointer, the debug flag *)
+Theorem C07_source_state_is_the_modelled_state : go_Middleware_fields = [FMu; FIcfg; FDebug].
+Proof. reflexivity. Qed.
+Print Assumptions C07_source_state_is_the_modelled_state.
